@@ -185,6 +185,25 @@ func sAdd(a, b string) string {
 			return sBig(new(big.Int).Add(x, y))
 		}
 	}
+	// (+ x c1) + c2 and (- x c1) + c2 with literals
+	if y, ok := litVal(b); ok && (strings.HasPrefix(a, "(+ ") || strings.HasPrefix(a, "(- ")) && strings.HasSuffix(a, ")") {
+		inner := a[3 : len(a)-1]
+		if sp := strings.LastIndexByte(inner, ' '); sp > 0 {
+			if c, ok := litVal(inner[sp+1:]); ok && balancedTail(inner[:sp]) {
+				if a[1] == '-' {
+					c = new(big.Int).Neg(c)
+				}
+				sum := new(big.Int).Add(c, y)
+				if sum.Sign() == 0 {
+					return inner[:sp]
+				}
+				if sum.Sign() < 0 {
+					return "(- " + inner[:sp] + " " + new(big.Int).Neg(sum).String() + ")"
+				}
+				return "(+ " + inner[:sp] + " " + sum.String() + ")"
+			}
+		}
+	}
 	return "(+ " + a + " " + b + ")"
 }
 
@@ -199,6 +218,29 @@ func sSub(a, b string) string {
 	}
 	if a == b {
 		return "0"
+	}
+	// (+ b x) - b  ==> x
+	if strings.HasPrefix(a, "(+ "+b+" ") && strings.HasSuffix(a, ")") {
+		rest := a[len("(+ "+b+" ") : len(a)-1]
+		if balancedTail(rest) {
+			return rest
+		}
+	}
+	// (+ x b) - b ==> x
+	if strings.HasPrefix(a, "(+ ") && strings.HasSuffix(a, " "+b+")") {
+		rest := a[3 : len(a)-len(b)-2]
+		if balancedTail(rest) {
+			return rest
+		}
+	}
+	// (+ x c1) - c2 with literals
+	if y, ok := litVal(b); ok && strings.HasPrefix(a, "(+ ") && strings.HasSuffix(a, ")") {
+		inner := a[3 : len(a)-1]
+		if sp := strings.LastIndexByte(inner, ' '); sp > 0 {
+			if c, ok := litVal(inner[sp+1:]); ok && balancedTail(inner[:sp]) {
+				return sAdd(inner[:sp], sBig(new(big.Int).Sub(c, y)))
+			}
+		}
 	}
 	return "(- " + a + " " + b + ")"
 }
